@@ -46,11 +46,11 @@ type Msg struct {
 	Data     []byte
 	Fields   []Field
 	Hdrs     []Hdr
-	Conn     int  // index of the connection (tcp/tls) the message is written to
-	Stream   int  // moq: 0 = unidirectional stream, 1 = bidirectional stream
-	Covered  bool // the single-message mutants of this message are enumerated under another seed with the same prefix
-	PauseMs  int  // pause before sending (ordering between connections)
-	WaitResp bool // before sending, wait (bounded) until the server has answered something new on this connection (or closed it)
+	Conn     int   // index of the connection (tcp/tls) the message is written to
+	Stream   int   // moq: 0 = unidirectional stream, 1 = bidirectional stream
+	Covered  bool  // the single-message mutants of this message are enumerated under another seed with the same prefix
+	PauseMs  int   // pause before sending (ordering between connections)
+	WaitResp bool  // before sending, wait (bounded) until the server has answered something new on this connection (or closed it)
 	Alts     []Alt // structure-aware single deviations: complete alternative encodings of this message
 }
 
@@ -85,6 +85,7 @@ type Seed struct {
 	Cookie    bool // messages contain cookiePlaceholder, replaced per exchange
 	Open      bool // delivered to a worker of the open world (see workerKind)
 	Light     bool // quick tier: only the structure-level deviations (alternatives, header lines, repeated and swapped messages), no byte-level and length-field ones
+	NoBytes   bool // in every tier only the structure-level deviations (the byte-level ones of these messages are enumerated under a sibling seed)
 	Dup       bool // also enumerate "message i sent twice in a row"
 	Streams   bool // the valid exchange ends in a state in which the server streams to the client until the client goes away
 	Echo      []Echo
@@ -382,7 +383,7 @@ func varintEncodeN(v uint64, n int) []byte {
 // enumerate every single-deviation mutant of a seed over the byte alphabet.
 func enumerate(s *Seed, alphabet []byte, opaqueStride int, quick bool, f func(Mut)) {
 	f(Mut{Kind: mSeed})
-	light := s.Light && quick
+	light := (s.Light && quick) || s.NoBytes
 	for i := range s.Msgs {
 		msg := &s.Msgs[i]
 		if msg.Covered {
